@@ -1,3 +1,86 @@
 package rules
 
-func c03Order(c *Ctx) {}
+import (
+	"fmt"
+	"go/types"
+	"sort"
+	"strings"
+
+	"golang.org/x/tools/go/ssa"
+
+	"sheensverif/internal/flow"
+	"sheensverif/internal/ssau"
+)
+
+// c03Order: a loop ranging directly over a Go map must not have early exits of
+// two different outcome classes: which one is taken would depend on the
+// iteration order the runtime happens to choose.
+func c03Order(c *Ctx) {
+	m := c.newMatchModel()
+	errT := types.Universe.Lookup("error").Type()
+	n := 0
+	for _, f := range m.fns {
+		loops := flow.Loops(f)
+		for _, l := range loops {
+			var rg *ssa.Range
+			for _, in := range l.Header.Instrs {
+				if nx, ok := in.(*ssa.Next); ok {
+					if r, ok := nx.Iter.(*ssa.Range); ok {
+						if _, isMap := r.X.Type().Underlying().(*types.Map); isMap {
+							rg = r
+						}
+					}
+				}
+			}
+			if rg == nil {
+				continue
+			}
+			n++
+			classes := map[string]string{}
+			for _, ex := range l.Exits() {
+				from, to := ex[0], ex[1]
+				if from == l.Header {
+					continue
+				}
+				ret, isRet := to.Instrs[len(to.Instrs)-1].(*ssa.Return)
+				if !isRet {
+					classes["leaves the loop early"] = c.pos(from.Instrs[len(from.Instrs)-1])
+					continue
+				}
+				last := ret.Results[len(ret.Results)-1]
+				isErr := types.Identical(last.Type(), errT) && !ssau.IsNilConst(last)
+				switch {
+				case isErr:
+					classes["error"] = c.pos(ret)
+				case ssau.IsNilConst(ret.Results[0]):
+					classes["no match"] = c.pos(ret)
+				default:
+					classes["result"] = c.pos(ret)
+				}
+			}
+			role := "map"
+			switch {
+			case m.has(rg.X, "P"):
+				role = "the pattern map"
+			case m.has(rg.X, "F"):
+				role = "a message map"
+			case isBindingsT(rg.X.Type()):
+				role = "bindings"
+			}
+			var cs []string
+			for k, p := range classes {
+				cs = append(cs, k+" ("+p+")")
+			}
+			sort.Strings(cs)
+			bad := classes["error"] != "" && classes["no match"] != ""
+			c.R.Check(!bad, "C03-R3", fmt.Sprintf("%s: range over %s", fname(f), role), c.pos(rg), fmt.Sprintf("early exits of at most one failure class: %s", strings.Join(cs, ", ")),
+				"the loop can end with an error or with a plain no-match depending on which key the runtime visits first: "+strings.Join(cs, ", "))
+		}
+	}
+	if n == 0 {
+		c.R.Break("C03-R3: no map range found in package match")
+	}
+	if m.branchPrivacy("C03-R5") == 0 {
+		c.R.Break("C03-R5: no call inside a loop over alternatives found")
+	}
+}
